@@ -45,6 +45,10 @@ def gen(rng, tier):
     regs.append({'kind': kind, 'name': 'r%d' % i,
                  'api': rng.choice(['configurable', 'register', 'external'])})
   case['regs'] = regs
+  case['marker_binding'] = None
+  if rng.random() < 0.3:
+    case['marker_binding'] = {'how': rng.choice(['text', 'api']),
+                              'scope': rng.choice(['', '', 'mb', 'mb/deep'])}
   return case
 
 
@@ -170,6 +174,65 @@ def run(case):
         (r['kind'], r['name']))
     except Exception:  # pylint: disable=broad-except
       pass
+  # ---- a binding whose VALUE is the REQUIRED marker ("to be overridden") fills
+  # nothing: a parameter marked REQUIRED still fails cleanly, and the marker
+  # never reaches the body
+  mb = case.get('marker_binding')
+  if mb and not viol:
+    ran = []
+
+    def _rq(a, b=gin.REQUIRED, c=3):
+      ran.append((a, b, c))
+      return (a, b, c)
+    _rq.__name__ = _rq.__qualname__ = 'rq'
+    rq = gin.configurable('rq', module='mm.rq')(_rq)
+    try:
+      if mb['how'] == 'text':
+        gin.parse_config('%srq.b = %%gin.REQUIRED' %
+                         (mb['scope'] + '/' if mb['scope'] else ''))
+      else:
+        gin.bind_parameter((mb['scope'], 'mm.rq.rq', 'b'), gin.REQUIRED)
+      if mb['scope']:
+        gin.bind_parameter('mm.rq.rq.b', 'root-value')
+    except Exception as e:  # pylint: disable=broad-except
+      v('C10.registration', ['marker-binding', type(e).__name__],
+        'binding rq.b to the REQUIRED marker raised %r' % e)
+      mb = None
+  if mb and not viol:
+    calls = {'omitted': lambda: rq(1),
+             'keyword': lambda: rq(1, b=gin.REQUIRED),
+             'positional': lambda: rq(1, gin.REQUIRED)}
+    for cname, fn in sorted(calls.items()):
+      del ran[:]
+      exc = None
+      try:
+        with gin.config_scope(mb['scope'] or None):
+          fn()
+      except Exception as e:  # pylint: disable=broad-except
+        exc = e
+      log.add('marker_binding', mb, cname, type(exc).__name__ if exc else None)
+      if any(x[1] is gin.REQUIRED or type(x[1]) is object for x in ran):
+        v('C10.marker_never_passed', ['binding-holds-the-marker', cname],
+          'rq.b is bound to the REQUIRED marker (%s, scope %r): the call (%s) '
+          'ran the body with %s' % (mb['how'], mb['scope'], cname, probes.scrub(repr(ran))))
+      elif not isinstance(exc, RuntimeError) or 'b' not in str(exc) or \
+          'rq' not in str(exc):
+        v('C10.call_fails', ['binding-holds-the-marker', cname,
+                             type(exc).__name__ if exc else 'no-error'],
+          'rq.b is bound to the REQUIRED marker (%s, scope %r): the call (%s) '
+          'should fail naming rq and b, got %r (body ran with %r)' %
+          (mb['how'], mb['scope'], cname, exc, ran))
+    if mb['scope']:
+      # outside that scope the root binding fills the parameter as usual
+      del ran[:]
+      try:
+        got = rq(1)
+      except Exception as e:  # pylint: disable=broad-except
+        got = 'EXC %r' % e
+      if got != (1, 'root-value', 3):
+        v('C10.received_value', ['binding-holds-the-marker', 'other-scope'],
+          'outside scope %r rq(1) gives %r, expected b=root-value' %
+          (mb['scope'], got))
   seen = set()
   uniq = []
   for x in viol:
